@@ -405,8 +405,125 @@ class Runner
         v.emplace_back(pass_arg<Form, I>(args)...);
     }
 
+    // Converting contiguous sources: the span of one FixedSize/VaryingSize field of arithmetic type T is supplied as a
+    // std::vector<U> (range, pointer or vector iterator) of another arithmetic type U that represents every value
+    // exactly, so the stored objects must be T(u) == the model value. K selects U: 0 = same size but other category
+    // (integer <-> floating point, or the other signedness for 1- and 2-byte integers: the only pairs for which a byte
+    // copy is the conversion), 1 = wider, 2 = narrower.
+    template <class U>
+    struct type_tag
+    {
+        using type = U;
+    };
+    template <class T, int K>
+    static constexpr auto alt_source_tag()
+    {
+        if constexpr (!std::is_arithmetic_v<T> || std::is_same_v<T, bool>)
+            return type_tag<void>{};
+        else if constexpr (std::is_integral_v<T>)
+        {
+            if constexpr (K == 0)
+            {
+                if constexpr (sizeof(T) == 4)
+                    return type_tag<float>{};
+                else if constexpr (sizeof(T) == 8)
+                    return type_tag<double>{};
+                else if constexpr (sizeof(T) == 2)
+                    return type_tag<std::conditional_t<std::is_signed_v<T>, uint16_t, int16_t>>{};
+                else
+                    return type_tag<std::conditional_t<std::is_signed_v<T>, uint8_t, int8_t>>{};
+            }
+            else if constexpr (K == 1)
+                return type_tag<std::conditional_t<(sizeof(T) < 8), int64_t, uint16_t>>{};
+            else
+                return type_tag<std::conditional_t<(sizeof(T) > 1), uint8_t, int32_t>>{};
+        }
+        else
+        {
+            if constexpr (K == 0)
+                return type_tag<std::conditional_t<sizeof(T) == 4, int32_t, int64_t>>{};
+            else if constexpr (K == 1)
+                return type_tag<std::conditional_t<sizeof(T) == 4, double, float>>{};
+            else
+                return type_tag<int16_t>{};
+        }
+    }
+    template <class U>
+    static bool key_fits(int64_t k)
+    {
+        if constexpr (std::is_floating_point_v<U>)
+            return k > -(int64_t(1) << 24) && k < (int64_t(1) << 24);
+        else if constexpr (std::is_signed_v<U>)
+            return k >= static_cast<int64_t>(std::numeric_limits<U>::min()) && k <= static_cast<int64_t>(std::numeric_limits<U>::max());
+        else
+            return k >= 0 && static_cast<uint64_t>(k) <= static_cast<uint64_t>(std::numeric_limits<U>::max());
+    }
+    template <std::size_t J, std::size_t I, int Pass, class Tup, class Alt>
+    static decltype(auto) pick_converting(Tup& t, Alt& alt)
+    {
+        if constexpr (I != J)
+            return pass_arg<0, I>(t);
+        else if constexpr (Pass == 0 || LI::kinds[J] != FIXED)
+            return static_cast<const Alt&>(alt);  // lvalue range
+        else if constexpr (Pass == 1)
+            return static_cast<const typename Alt::value_type*>(alt.data());  // pointer
+        else
+            return alt.cbegin();  // vector iterator
+    }
+    template <std::size_t J, int K, std::size_t... I>
+    bool emplace_converting_at(Vec& v, const MElem& e, std::index_sequence<I...>)
+    {
+        if constexpr (J >= N)
+            return false;
+        else
+        {
+            using T = typename LI::template T<J>;
+            using U = typename decltype(alt_source_tag<T, K>())::type;
+            if constexpr (std::is_void_v<U> || LI::kinds[J] == PLAIN)
+                return false;
+            else
+            {
+                for (auto k : e.f[J])
+                    if (!key_fits<U>(k)) return false;
+                std::vector<U> alt;
+                alt.reserve(e.f[J].size() + 1);
+                for (auto k : e.f[J]) alt.push_back(static_cast<U>(k));
+                auto args = std::tuple<decltype(make_arg<I>(e))...>{make_arg<I>(e)...};
+                v.emplace_back(pick_converting<J, I, K, decltype(args), std::vector<U>>(args, alt)...);
+                st.label(sizeof(U) == sizeof(T) ? "emplace_converting_same_size" : "emplace_converting_other_size");
+                return true;
+            }
+        }
+    }
+    // first and last range field of arithmetic type
+    static constexpr std::size_t first_convertible()
+    {
+        for (std::size_t i = 0; i < N; ++i)
+            if (LI::kinds[i] != PLAIN && LI::convertible[i]) return i;
+        return N;
+    }
+    static constexpr std::size_t last_convertible()
+    {
+        for (std::size_t i = N; i-- > 0;)
+            if (LI::kinds[i] != PLAIN && LI::convertible[i]) return i;
+        return N;
+    }
+    bool emplace_converting(Vec& v, const MElem& e, unsigned which)
+    {
+        constexpr std::size_t F = first_convertible();
+        constexpr std::size_t L = last_convertible();
+        switch (which & 3)
+        {
+            case 0: return emplace_converting_at<F, 0>(v, e, Idx{});
+            case 1: return emplace_converting_at<F, 1>(v, e, Idx{});
+            case 2: return emplace_converting_at<F, 2>(v, e, Idx{});
+            default: return emplace_converting_at<(L != F ? L : N), 0>(v, e, Idx{});
+        }
+    }
+
     void do_emplace_model(Vec& v, const MElem& e, unsigned form)
     {
+        if ((form & 0x80) && emplace_converting(v, e, form >> 8)) return;
         form &= 3;
         if constexpr (!LI::ALL_COPYABLE)
         {
@@ -973,6 +1090,21 @@ class Runner
             const auto re = reinterpret_cast<std::uintptr_t>(r.data_end());
             auto it = v.begin() + static_cast<std::ptrdiff_t>(i);
             VF_REQUIRE(reinterpret_cast<std::uintptr_t>(it.data()) == rb, "iterator_data_mismatch", "iterator.data() != reference.data_begin() at index " + std::to_string(i));
+            {
+                // the const-qualified overloads of operator*, operator-> and data() of an iterator object, and a
+                // const_iterator of the const vector, denote the same objects as operator[]
+                const auto cit = it;
+                const typename Vec::const_iterator ccit = static_cast<const Vec&>(v).begin() + static_cast<std::ptrdiff_t>(i);
+                auto exc = extents(*cit);
+                auto excc = extents(*ccit);
+                bool same = reinterpret_cast<std::uintptr_t>(cit.data()) == rb && reinterpret_cast<std::uintptr_t>(ccit.data()) == rb &&
+                            reinterpret_cast<std::uintptr_t>(cit->data_begin()) == rb && reinterpret_cast<std::uintptr_t>(cit->data_end()) == re &&
+                            reinterpret_cast<std::uintptr_t>(ccit->data_begin()) == rb && reinterpret_cast<std::uintptr_t>(ccit->data_end()) == re &&
+                            cit->size_in_bytes() == r.size_in_bytes();
+                for (std::size_t k = 0; k < N && same; ++k)
+                    same = exc[k].begin == ex[k].begin && exc[k].count == ex[k].count && excc[k].begin == ex[k].begin && excc[k].count == ex[k].count;
+                VF_REQUIRE(same, "const_iterator_deref_mismatch", "dereferencing a const-qualified iterator / a const_iterator at index " + std::to_string(i) + " denotes other addresses or span lengths than operator[]");
+            }
             VF_REQUIRE(rb == ex[0].begin, "element_begin_mismatch", "reference.data_begin() is not the start of field 0");
             VF_REQUIRE(re == ex[N - 1].end(), "element_end_mismatch", "reference.data_end() is not the end of the last field");
             VF_REQUIRE(rb >= prev_end, "elements_overlap", "element " + std::to_string(i) + " starts before the end of its predecessor");
@@ -1091,6 +1223,24 @@ class Runner
             for (auto* p : held) VF_REQUIRE(r.live.count(p) == 1, "held_object_not_alive", "object at " + Registry::addr(p) + " is reachable through the API but is not alive");
             (void)in_blocks;
         }
+    }
+
+    // C05 footprint: a vector uses its data block and, only when the list has a VaryingSize parameter, one table of
+    // element addresses; an element uses one block. Nothing else may stay allocated between operations.
+    void monitor_block_census()
+    {
+        std::size_t holders = 0, vectors = 0;
+        for (int s = 0; s < NSLOT; ++s)
+        {
+            if (vs[s].m.alive) ++vectors;
+            if (es[s].alive) ++holders;
+        }
+        std::size_t tables = 0, blocks = 0;
+        for (auto& [k, b] : ledger().live) (b.is_table ? tables : blocks) += 1;
+        if constexpr (NV == 0)
+            VF_REQUIRE(tables == 0, "address_table_without_varying", "a list without VaryingSize parameter holds " + std::to_string(tables) + " element address table(s): it uses more than memory_consumption() bytes");
+        VF_REQUIRE(tables <= vectors, "excess_blocks", std::to_string(tables) + " address tables are allocated for " + std::to_string(vectors) + " vectors");
+        VF_REQUIRE(blocks <= vectors + holders, "excess_blocks", std::to_string(blocks) + " data blocks are allocated for " + std::to_string(vectors) + " vectors and " + std::to_string(holders) + " elements");
     }
 
     // C07
@@ -1272,6 +1422,7 @@ class Runner
                 for (int s = 0; s < NSLOT && !bad(); ++s) monitor_elem_layout(s);
                 break;
             case 5:
+                if (!bad()) monitor_block_census();
                 for (int s = 0; s < NSLOT && !bad(); ++s) monitor_greedy(s);
                 for (int s = 0; s < NSLOT && !bad(); ++s) monitor_elem_layout(s);
                 break;
